@@ -18,6 +18,7 @@ import Optyx.Lemmas.GlueInputs
 import Optyx.Props.C01
 import Optyx.Props.C03
 import Optyx.Props.C09
+import Optyx.Props.C17
 
 namespace Optyx.Props.C09b
 open Optyx Optyx.Py Optyx.Py.Jac Optyx.Py.Api Optyx.Py.Glue Optyx.Generated NumAlg
@@ -119,6 +120,41 @@ theorem con_sign_meaning (s : Sense) (v : ℝ) :
 theorem reported_objective (s : ObjSense) (f : ℝ) : reportedObjective s (sgnOf s * f) = f := by
   have h := Optyx.Props.Glue.glue_sources.2.2.2.2.2.2.2
   cases s <;> simp [reportedObjective, sgnOf, h]
+
+/-- **The Hessian handed to SciPy** (methods in `HESSIAN_METHODS`): it is compiled from the same `±f` as the
+    objective and the gradient (− exactly under `maximize`), and entry `(i, j)` of the matrix it returns at a
+    regular point is the true second partial derivative `∂/∂V[j] ∂/∂V[i]` of that expression, the matrix being
+    symmetric — C17 (`compileHessian_true_second_partial`, hence C02 twice and Schwarz) through the regenerated
+    glue tables. -/
+theorem scipy_hessian_faithful (P : Problem) (V : List Var) (obj : Expr) (h : HessClo)
+    (hobj : P.objective = some obj) (hnd : (names V).Nodup) (hwf : WF obj)
+    (hb : buildHessian P V = .ok h) (σ : Nat → ℝ) (x : List ℝ) (hx : x.length = V.length)
+    (hreg : Regular (Jac.envOf V x) σ obj) :
+    let e' := solverHessObjective P.sense obj
+    (∀ ρ : String → ℝ, denote ρ σ e' = sgnOf P.sense * denote ρ σ obj) ∧
+    ∀ i j (hi : i < V.length) (hj : j < V.length),
+      ∃ d, entry? (h.run x σ) i j = some d ∧ entry? (h.run x σ) j i = some d ∧
+        HasDerivAt
+          (fun t => deriv (fun s => denote (Function.update (Function.update (Jac.envOf V x) V[j].name t) V[i].name s) σ e')
+                      ((Function.update (Jac.envOf V x) V[j].name t) V[i].name))
+          d (x.getD j 0) := by
+  intro e'
+  have hsrc := Optyx.Props.Glue.glue_sources
+  have he' : e' = solverObjective P.sense obj := by
+    show solverHessObjective P.sense obj = solverObjective P.sense obj
+    cases P.sense <;> simp [solverHessObjective, solverObjective, hsrc.2.2.2.2.2.1, hsrc.2.2.2.2.2.2.1]
+  refine ⟨fun ρ => by rw [he']; exact denote_solverObjective ρ σ _ _, ?_⟩
+  intro i j hi hj
+  have hc : compileHessian e' V = .ok h := by
+    unfold buildHessian at hb
+    rw [hobj] at hb
+    simp only [hsrc.2.2.2.2.1, hessianFrom] at hb
+    cases hh : compileHessian (solverHessObjective P.sense obj) V with
+    | ok c => rw [hh] at hb; cases hb; rfl
+    | error err => rw [hh] at hb; cases hb
+  have hwf' : WF e' := by rw [he']; exact wf_solverObjective _ _ hwf
+  have hreg' : Regular (Jac.envOf V x) σ e' := by rw [he']; exact regular_solverObjective _ σ _ _ hreg
+  exact Optyx.Props.C17.compileHessian_true_second_partial σ e' V x hnd hx hwf' hreg' h hc i j hi hj
 
 /-! ### non-vacuity -/
 
